@@ -117,6 +117,27 @@ func pickScenario(prop string, i int, only string) *Scenario {
 	return list[0]
 }
 
+// scenarioOrdinal: run index i is the n-th run of its scenario (n counts from
+// 0 over consecutive indices), so index-driven grids enumerate without gaps.
+func scenarioOrdinal(prop string, i int) int {
+	list := registry[prop]
+	tot := 0
+	for _, s := range list {
+		tot += s.Weight
+	}
+	if tot == 0 {
+		return i
+	}
+	k := i % tot
+	for _, s := range list {
+		if k < s.Weight {
+			return (i/tot)*s.Weight + k
+		}
+		k -= s.Weight
+	}
+	return i
+}
+
 func envInt(name string, def int) int {
 	if v := os.Getenv(name); v != "" {
 		if n, err := strconv.Atoi(v); err == nil {
@@ -144,7 +165,7 @@ func runOne(t *testing.T, sc *Scenario, prop string, idx int, seed uint64, repla
 	}
 	res = Result{Prop: prop, Scenario: sc.Name, Engine: sc.Engine, Run: idx, Seed: seed}
 	start := time.Now()
-	w := &W{T: tape, Prop: prop, Scenario: sc.Name, RunIdx: idx, Seed: seed,
+	w := &W{T: tape, Prop: prop, Scenario: sc.Name, RunIdx: idx, Seed: seed, ScenOrd: scenarioOrdinal(prop, idx),
 		Shape: map[string]interface{}{}, States: map[uint64]bool{}, Incon: map[string]int{}}
 	w.World = simrt.NewWorld(tape, sc.Horizon)
 	w.World.KeepLog = keepLog
@@ -354,6 +375,9 @@ func TestWorker(t *testing.T) {
 			fmt.Fprintf(os.Stderr, "no scenario for %s\n", prop)
 			os.Exit(2)
 		}
+		if sc.Engine == "R" && os.Getenv("VERIF_SKIP_R") != "" {
+			continue
+		}
 		if os.Getenv("VERIF_RUN_MARKERS") != "" {
 			fmt.Fprintf(os.Stderr, "#RUN %d %d %s\n", i, seedFor(base, prop, i), sc.Name)
 		}
@@ -366,6 +390,12 @@ func TestWorker(t *testing.T) {
 			os.Exit(2)
 		}
 		if res.Verdict == "violation" && stopOnViol {
+			break
+		}
+		if sc.Engine == "R" && os.Getenv("VERIF_CONTINUE") == "" {
+			// real sockets, real goroutines (net/http, gorilla): they may outlive
+			// the run, and must never meet a later simulated world: fresh process
+			enc.Encode(map[string]interface{}{"resume": i + stride})
 			break
 		}
 		if res.Verdict == "violation" && os.Getenv("VERIF_CONTINUE") == "" {
